@@ -160,6 +160,18 @@ func RunAllLimit(hs []*Hist, par, perturb int, limit int64) []*Report {
 	return runAll(hs, par, perturb, false)
 }
 
+// WriteStallCancelHist: as CoalCancelHist, but the contexts expire while the Write that carries the frames is
+// blocked on a slow link (coalescer: inside the flush; direct writer: the first caller inside Write, the others
+// waiting for the writer's semaphore).
+func WriteStallCancelHist(idx, proto, variant int, coalesce bool) *Hist {
+	h := CoalCancelHist(idx, proto, variant)
+	h.Coalesce = coalesce
+	h.CoalesceMs = 5
+	h.CancelMs = 25 + 5*(variant%2)
+	h.WriteStallMs = 70
+	return h
+}
+
 // Term prints the report's logs as a Coq term of type C01.Corr.case.
 func (rep *Report) Term() string {
 	var logs []string
